@@ -28,10 +28,11 @@ def BIND(node, var, k=0):
 def CALL(k, parent=None):
     TRACE.append(("enter", k.id, k.label, parent))
     try:
-        FUNCS[k.label](k)
+        ret = FUNCS[k.label](k)
     except ERR:
         TRACE.append(("exit", k.id, "raise"))
     else:
+        TRACE.append(("bind", k.id, "#value", ret))
         TRACE.append(("exit", k.id, "return"))
 
 def A(node):
@@ -172,6 +173,7 @@ def static_trace(tree):
         else:
             out.append(("bind", i, "q", i * 10 + 1))
             out.append(("bind", i, "p", i * 10 + 2))
+            out.append(("bind", i, "#value", i * 10 + 1))
             out.append(("exit", i, "return"))
 
     rec(sh, None)
